@@ -13,7 +13,10 @@ _status_rule = ('explicit-state BFS to the fix-point over the real register mach
                 'combination of the representative bits of each of the nine writable registers, ErrorPush of one code per modelled '
                 'class, ErrorPop, ErrorClear, and the status commands through SCPI_Input); state key = the ten registers + queue count; '
                 'every transition is a real API call checked against the invariant / transition rules; non-trivial = transition that '
-                'changed a register or the queue count. ')
+                'changed a register or the queue count. The alphabet also sets and clears status-byte bit 4, which belongs to the application, '
+                'with SRE carrying that bit: it takes part in MSS like the four summary bits. Behind the BFS: each enable command (*ESE, *SRE, '
+                'STAT:OPER:ENAB, STAT:QUES:ENAB) with every argument 0..65535 from five base states (one with pending events in the upper byte), '
+                'and the application bits 0, 1, 4 of the status byte in every combination against every SRE byte, SRE written before or after. ')
 
 reg('C11',
     title='status byte equals the summary of the registers behind it',
@@ -122,7 +125,7 @@ reg('C03',
     deadline={'quick': 400, 'thorough': 4000},
     level=MC,
     technique='bounded-exhaustive enumeration of (pattern, header) pairs on the real matcher (ASan), compared with an independent reference matcher, plus the public SCPI_Input path',
-    rule={'quick': 'patterns: all 1248 patterns of 1..4 keywords taken in order from {ABcd, EFgh, IJ, KLMno}, each keyword optional and/or numeric, with/without ?, plus 44 shipped/common patterns. headers per pattern: (A) every sequence of <= 3 mnemonics over {short, long, long-letter, short+"1"} of each keyword plus an alien mnemonic x colon x ? x 2 cases; (B) every keyword subset / alien insertion / adjacent swap spelled (up to 4 mnemonics) with every combination of 5 forms per mnemonic x colon x ? x 3 cases; (C) for every numeric-suffix keyword of every pattern a correctly spelled header (short and long form) with each of 23 suffix texts behind that keyword (leading zeros, digits 8/9, 2147483647; sign, blank, tab, letter, radix prefix, exponent, point) x colon x ? x 3 cases; a second vocabulary {SYNChronization, W3GPp, RX_Level, IEEE488, W, RX} (keyword above 12 characters, digit or underscore inside the short form, keyword without lower-case part, keyword that is a prefix of another): 384 patterns of 1..2 keywords in 6 shapes; an eighth of the first-vocabulary patterns and all others additionally through SCPI_Input -> handler -> SCPI_CommandNumbers. non-trivial = header the reference accepts',
+    rule={'quick': 'patterns: all 1248 patterns of 1..4 keywords taken in order from {ABcd, EFgh, IJ, KLMno}, each keyword optional and/or numeric, with/without ?, plus 44 shipped/common patterns. headers per pattern: (A) every sequence of <= 3 mnemonics over {short, long, long-letter, short+"1"} of each keyword plus an alien mnemonic x colon x ? x 2 cases; (B) every keyword subset / alien insertion / adjacent swap spelled (up to 4 mnemonics) with every combination of 5 forms per mnemonic x colon x ? x 3 cases; (C) for every numeric-suffix keyword of every pattern a correctly spelled header (short and long form) with each of 27 suffix texts behind that keyword (leading zeros up to 15 digits whose value still fits 32 bits, digits 8/9, 2147483647; sign, blank, tab, letter, radix prefix, exponent, point) x colon x ? x 3 cases; a second vocabulary {SYNChronization, W3GPp, RX_Level, IEEE488, W, RX} (keyword above 12 characters, digit or underscore inside the short form, keyword without lower-case part, keyword that is a prefix of another): 384 patterns of 1..2 keywords in 6 shapes; an eighth of the first-vocabulary patterns and all others additionally through SCPI_Input -> handler -> SCPI_CommandNumbers. non-trivial = header the reference accepts',
           'thorough': 'as quick with <= 5 (4 for 4-keyword patterns) mnemonics in (A), 8 forms and up to 5 mnemonics in (B) and every pattern through SCPI_Input'},
     assumptions=['vocabulary keywords have pairwise distinct short and long forms and optional keywords are only combined with keywords of a different initial, which guarantees the statement\'s unambiguity side condition',
                  'a numeric suffix of up to 10 digits fits int32; larger values are not enumerated (the statement does not define them)'],
@@ -137,7 +140,7 @@ reg('C02',
     deadline={'quick': 400, 'thorough': 3000},
     level=MC,
     technique='bounded-exhaustive enumeration of (command table, message) pairs executed through SCPI_Input (ASan, tail-poisoned input buffer), compared with a reference interpreter of the header-path and first-match rules',
-    rule={'quick': 'command tables: every ordered pair (110) and triple (990) of a pool of 11 overlapping patterns plus the whole pool in two orders; messages: every sequence of 1..3 units (1..2 for triples) over 31 header spellings (handlers of every second table entry fail with -200) (short/long, letter case, leading colon, optional keyword present/absent, numeric suffix, common, undefined with and without colons, undefined ones that differ from a defined keyword in the last character only) x 2 separator styles; the same for a second vocabulary of 9 patterns and 21 spellings (keywords of 13 and 15 characters, short forms holding a digit or underscore, a keyword that is a prefix of another, numeric suffix behind a 13-character keyword; ordered pairs and the whole pool in two orders); entry tags beyond 16 bits; a table of 300 entries C0..C299 probed at indices around 127/128, 255/256 and beyond the end, alone and as second unit; non-trivial = every message (each is compared unit by unit with the reference trace)',
+    rule={'quick': 'command tables: every ordered pair (110) and triple (990) of a pool of 11 overlapping patterns plus the whole pool in two orders; messages: every sequence of 1..3 units (1..2 for triples) over 31 header spellings (handlers of every second table entry fail with -200) (short/long, letter case, leading colon, optional keyword present/absent, numeric suffix, common, undefined with and without colons, undefined ones that differ from a defined keyword in the last character only) x 2 separator styles; the same for a second vocabulary of 9 patterns and 21 spellings (keywords of 13 and 15 characters, short forms holding a digit or underscore, a keyword that is a prefix of another, numeric suffix behind a 13-character keyword; ordered pairs and the whole pool in two orders) and for a third vocabulary of 7 patterns and 16 spellings whose patterns end in optional keywords with a numeric suffix next to plainer entries overlapping them (OUTPut#[:CHANnel#] / OUTPut#, SOURce#:LEVel[:IMMediate#]? / SOURce#:LEVel?, ...); entry tags beyond 16 bits; a table of 300 entries C0..C299 probed at indices around 127/128, 255/256 and beyond the end, alone and as second unit; non-trivial = every message (each is compared unit by unit with the reference trace)',
           'thorough': 'as quick with 1..4 units (1..3 for triples and for the second vocabulary, which also gets its triples), additionally in the no-info build'},
     assumptions=['after a common (*) command the next unit uses its header as written, as the statement says',
                  'the -113 text only has to contain the header as written'],
@@ -270,7 +273,7 @@ reg('C07',
     deadline={'quick': 400, 'thorough': 2500},
     level=MC,
     technique='bounded-exhaustive round trip through the real code both ways (SCPI_Result* -> captured response -> SCPI_Input -> SCPI_Param*), exhaustive over the 8/16-bit spaces and, at token level, over the 32-bit space',
-    rule={'quick': 'through SCPI_Input (ASan): all 2^8 and 2^16 values of the 8/16-bit types in bases 2/8/10/16; 32/64-bit values m*2^s (m < 256) and complements and powers of each base +-2; booleans; every string of length <= 5 over {a " \' ; NL , blank DEL} and strings of 7..300 characters x 4 fills; blocks of every length 0..1100 x 6 byte patterns; 14 decimal mantissas x every exponent -323..308 x sign and every power of two (+ predecessor) as double and float; ASCII arrays of 0..5 elements of 6 types and Int32 arrays of 254..1000 elements; a block (one-shot, and streamed in pieces of 1/3/7/64 bytes) followed by further items; every integer, float and double response is decoded a second time with SCPI_Parameter + SCPI_ParamToXxx and must give the same value. Token level (-O2): one value per 64-value stratum of the 32-bit space x {Int32, UInt32 base 2/8/10/16}; non-trivial = round trip whose decoded value was compared',
+    rule={'quick': 'through SCPI_Input (ASan): all 2^8 and 2^16 values of the 8/16-bit types in bases 2/8/10/16; 32/64-bit values m*2^s (m < 256) and complements and powers of each base +-2; booleans; every string of length <= 5 over {a " \' ; NL , blank DEL} and strings of 7..300 characters x 4 fills; blocks of every length 0..1100 x 8 byte patterns (two without a power-of-two period); 14 decimal mantissas x every exponent -323..308 x sign and every power of two (+ predecessor) as double and float; ASCII arrays of 0..5 elements of 6 types and Int32 arrays of 254..1000 elements; a block (one-shot, and streamed in pieces of 1/3/7/64 bytes) followed by further items; every integer, float and double response is decoded a second time with SCPI_Parameter + SCPI_ParamToXxx and must give the same value. Token level (-O2): one value per 64-value stratum of the 32-bit space x {Int32, UInt32 base 2/8/10/16}; non-trivial = round trip whose decoded value was compared',
           'thorough': 'strings of length <= 6, m < 4096, ALL 2^32 values at token level, floats/doubles also with the built-in formatter'},
     assumptions=['floats/doubles: decoded value within half a unit of the last emitted digit (one unit with the built-in formatter), computed in double arithmetic with 1e-9 slack',
                  '64-bit integers, floats and doubles are covered by structured sets only'],
